@@ -461,8 +461,8 @@ func c25GenEnv(r *Rand) [][2]string {
 	if r.Chance(60) {
 		add("sp", r.Pick([]string{" a  b ", "a b c", " ", "a\nb"}))
 	}
-	if r.Chance(40) {
-		add("q", r.Pick([]string{"it's", `say "hi"`, `back\slash`, "$x", "*", "~", "a{b,c}"}))
+	if r.Chance(60) {
+		add("q", r.Pick([]string{"it's", `say "hi"`, `back\slash`, "$x", "*", "~", "a{b,c}", "$1", "US$5", "a$$b", "${x}", "$0", "$1", "$name"}))
 	}
 	if r.Chance(70) {
 		add("HOME", r.Pick([]string{"/home/u", "/h m", "/"}))
@@ -530,8 +530,14 @@ func c25GenExpansion(r *Rand, rich bool) string {
 		return "${" + r.Pick(c25Names) + "}"
 	case k < 16:
 		return "${" + r.Pick(c25Names) + r.Pick([]string{":-", "-", ":+", "+"}) + c25GenWordOfOp(r, rich) + "}"
-	case k < 19:
+	case k < 17:
 		return "$((" + c25GenArith(r, 0) + "))"
+	case k < 19:
+		// pattern replacement (search leg only; the operator itself is property C21's): the
+		// replacement text arrives through variables, `$`-sequences in it must stay literal
+		return "${" + r.Pick([]string{"x", "y", "sp", "x1"}) + r.Pick([]string{"/", "//"}) +
+			r.Pick([]string{"a", "l", "b", "e", "?", "?", "?", " ", "n", "*"}) + "/" +
+			r.Pick([]string{"$q", "[$q]", "$q$q", "-", "", "$y", "r$q"}) + "}"
 	default:
 		if rich {
 			return r.Pick([]string{"${#x}", "${x%l}", "${x:1}", "${u:=d}", "${u:?msg}", "$[1+2]", "$((2**3))", "$((n++))", "$(echo hi)", "`echo`", "$1", "$@", "$#", "$?", "${x/a/b}", "${!x}", "$((08))", "$((0x10))", "$((1/0))", "$(( ))"})
@@ -830,9 +836,6 @@ func c25Excl(cs c25Case, fields bool) string {
 				}
 			}
 		}
-	}
-	if fields && strings.Contains(s, `""`) && strings.Contains(s, "$") {
-		return "c22-empty-dquotes"
 	}
 	return ""
 }
